@@ -198,3 +198,23 @@ def all_schedules(prefix):
             for pr in R_POINTS:
                 out.append(concurrent(random.Random(len(out)), "%s%d" % (prefix, len(out)), 2, first, pw, pr))
     return out
+
+
+WW_PAIRS = [(["APPEND", "k", "a"], ["APPEND", "k", "b"]), (["RPUSH", "l", "x"], ["RPUSH", "l", "y"]), (["SET", "k", "1"], ["SET", "k", "2"]),
+            (["APPEND", "k", "a"], ["SET", "k", "z"]), (["LPUSH", "l", "x"], ["RPOP", "l"]), (["INCR", "n"], ["SET", "n", "10"]),
+            (["HSET", "h", "f", "1"], ["DEL", "h"]), (["SADD", "s", "m"], ["SREM", "s", "m"])]
+WW_POINTS = ["cmd.after_handler", "log.write.begin", "log.write.after_cmd"]
+
+def two_writers(rng, sid, i):
+    """a write command parked between its handler and its log record while a second, non-commuting write to the same key is
+    started on another connection; then a restart: the restored dataset must be the one the two writes built, in the order
+    they executed"""
+    s = Script(sid, {"aofsync": POLICIES[i % 3], "images": "0"})
+    s.raw("O", ["open"])
+    a, b = WW_PAIRS[i % len(WW_PAIRS)]
+    if i % 2:
+        add_cmd(s, 1, ["SET", "other", "x"])
+    point = WW_POINTS[(i // len(WW_PAIRS)) % len(WW_POINTS)]
+    s.raw("WW %s 1 %d %s 2 %s" % (point, len(a), hexs(a), hexs(b)), ["two-writers", point, a, b])
+    s.raw("G", ["digest"]); s.raw("K", ["kill"]); s.raw("O", ["open"]); s.raw("G", ["digest"])
+    return s
